@@ -68,6 +68,8 @@ def gen(rng, tier):
     else:
         prog = gen_program(rng)
     prog["stateless"] = stateless
+    if stateless and rng.random() < 0.4:
+        prog["post_run_cancel"] = [rng.randrange(1000) for _ in range(rng.randint(1, 3))]
     if stateless and rng.random() < 0.5:
         # a load source (and sometimes a daemon probe): reset() must re-prime them
         prog["source"] = {"rate": rng.choice([2.0, 4.0, 7.0]), "dur": rng.choice([1.0, 3.0, 5.0]),
@@ -165,8 +167,8 @@ def _build(sc, *, control=False, trace=False):
     sim = Simulation(entities=pr.entities, sources=sources or None, probes=probes or None,
                      end_time=Instant(end) if end is not None else None, trace_recorder=rec)
     pr.sim = sim
-    evs = pr.build_initial()
-    for e in evs:
+    pr.create_initial()
+    for e in pr.initial_in_schedule_order():
         sim.schedule(e)
     pr.apply_late_cancels()
     return pr, sim
@@ -243,7 +245,8 @@ def run_controlled(sc, *, trace=False, tracing=False):
         def hook(ev):
             seen["n"] += 1
             seen["types"].append(ev.event_type)
-            seen["times"].append(ev.time.nanoseconds)
+            # the clock, not ev.time: a handler may have re-timed the event object it received
+            seen["times"].append(pr.entities[0].now.nanoseconds)
             for e in range(sc["n_entities"]):
                 snaps[e].append(pr.entities[e].seen_count)
             if seen["n"] in pause_at:
@@ -366,8 +369,12 @@ def run_controlled(sc, *, trace=False, tracing=False):
                     bp = MetricBreakpoint(entity_name=f"E{op['entity']}", attribute="seen_count", operator=op.get("cmp", "ge"),
                                           threshold=op["ge"], one_shot=op["one_shot"])
                 bid = ctl.add_breakpoint(bp)
+                if bid in active_bps:
+                    raise Bad("breakpoint/id-reused", f"add_breakpoint returned id {bid!r}, which is the id of a breakpoint that is still registered")
                 active_bps[bid] = m
                 bp_ids.append(bid)
+                if len(ctl.list_breakpoints()) != len(active_bps):
+                    raise Bad("breakpoint/registry-size", f"{len(ctl.list_breakpoints())} breakpoints registered, {len(active_bps)} expected")
             elif k == "remove_bp":
                 live = [b for b in bp_ids if b in active_bps]
                 if live:
@@ -537,13 +544,17 @@ def _reset_check(sc):
     tl = []
 
     def tap(ev):
-        tl.append((ev.time.nanoseconds, ev.event_type, getattr(ev.target, "name", "?")))
+        tl.append((pr.entities[0].now.nanoseconds, ev.event_type))
 
     sim.control.on_event(tap)
     sim.run()
     first = list(tl)
     del tl[:]
     pr.log.clear()
+    # cancelling an event that was already delivered is a documented no-op: it must not change the replay either
+    for i in sc.get("post_run_cancel", []):
+        if pr._created:
+            pr._created[i % len(pr._created)].cancel()
     sim.control.reset()
     sim.control.pause()
     sim.run()
@@ -556,7 +567,7 @@ def _reset_check(sc):
         sim.control.resume()
     second = list(tl)
     for uid, step, clk, evt in pr.log:
-        if step == -1 and clk != evt:
+        if step < 0 and clk != evt:
             return ("reset/clock-ne-event-time", f"after reset() an event stamped {evt}ns was delivered while the clock read {clk}ns")
     if pr.problems:
         return (f"reset/{pr.problems[0][0]}", pr.problems[0][1])
